@@ -18,6 +18,7 @@ var All = map[string]*fw.Prop{
 	"C14": C14,
 	"C15": C15,
 	"C19": C19,
+	"C20": C20,
 	"C16": C16,
 	"C17": C17,
 }
